@@ -57,8 +57,10 @@ def RawDim.toF32 (d : RawDim) : Dim F32 :=
    fun i => ⟨match d.knotBits i with | some u => Float.ofBits u | none => Float.ofBits 0x7ff8000000000000⟩⟩
 /-- exact carrier: padding / non-finite values become 0 (results are proved independent of padding) -/
 def RawDim.toRat (d : RawDim) : Dim Rat :=
+  let tab : Array Rat := d.kbits.map fun u => (ratOfBits u).getD 0
+  let ord : Int := d.order
   ⟨d.order, d.nknots, d.nknots - d.order - 1, d.stride,
-   fun i => match d.knotBits i with | some u => (ratOfBits u).getD 0 | none => 0⟩
+   fun i => let j := i + ord; if j < 0 then 0 else tab.getD j.toNat 0⟩
 def RawDim.toKeys (d : RawDim) : Axis (Option Int) :=
   ⟨d.order, d.nknots, fun i => match d.knotBits i with | some u => keyOfBits u | none => none⟩
 
@@ -71,10 +73,8 @@ def coefFloat (c : Array UInt32) (i : Int) : Float :=
 def RawTable.toF64 (t : RawTable) : Table F64 := ⟨t.dims.map RawDim.toF64, fun i => ⟨coefFloat t.coef i⟩⟩
 def RawTable.toF32 (t : RawTable) : Table F32 := ⟨t.dims.map RawDim.toF32, fun i => ⟨coefFloat t.coef i⟩⟩
 def RawTable.toRat (t : RawTable) : Table Rat :=
-  ⟨t.dims.map RawDim.toRat, fun i => if i < 0 then 0 else
-    match t.coef[i.toNat]? with
-    | some u => (ratOfBits (Float32.ofBits u).toFloat.toBits).getD 0
-    | none => 0⟩
+  let tab : Array Rat := t.coef.map fun u => (ratOfBits (Float32.ofBits u).toFloat.toBits).getD 0
+  ⟨t.dims.map RawDim.toRat, fun i => if i < 0 then 0 else tab.getD i.toNat 0⟩
 
 def parseDims : Nat → List String → Option (List RawDim × List String)
   | 0, rest => some ([], rest)
@@ -127,84 +127,94 @@ def magRows : List (Dim Rat) → List Rat → List BasisMode → List (Nat × Li
   | _, _, _ => []
 
 /-- exact part shared by V and D lines: model value, spec value, magnitude -/
-def exactPart (t : RawTable) (xs : List UInt64) (cs : List Nat) (ms : List BasisMode) : String :=
+structure DState where
+  raw : RawTable
+  rat : Table Rat          -- exact copy of the table, converted once per `T` line
+  cmax : Rat
+
+instance : Inhabited DState := ⟨⟨default, ⟨[], fun _ => 0⟩, 0⟩⟩
+
+def mkState (t : RawTable) : DState :=
+  ⟨t, t.toRat, t.coef.foldl (fun m u => let r := ratAbs ((ratOfBits (Float32.ofBits u).toFloat.toBits).getD 0); if m < r then r else m) (0 : Rat)⟩
+
+def exactPart (st : DState) (xs : List UInt64) (cs : List Nat) (ms : List BasisMode) : String :=
   match xs.mapM ratOfBits with
   | none => "inexact"
   | some xr =>
-    let T := t.toRat
+    let T := st.rat
     let model := evalModes T xr cs ms
     let rows := specRows T.dims xr ms
     let spec := specSum T.coef rows Arith.one 0
     let mag := specSum (absTable T).coef (magRows T.dims xr ms) Arith.one 0
-    let cmax := t.coef.foldl (fun m u => let r := ratAbs ((ratOfBits (Float32.ofBits u).toFloat.toBits).getD 0); if m < r then r else m) (0 : Rat)
-    s!"{showRat model} {showRat spec} {showRat mag} {showRat cmax}"
+    s!"{showRat model} {showRat spec} {showRat mag} {showRat st.cmax}"
 
 def evalBits (t : RawTable) (prec : String) (xs : List UInt64) (cs : List Nat) (ms : List BasisMode) : UInt64 :=
   if prec == "d" then cbits (evalModes t.toF64 (xs.map fun u => (⟨Float.ofBits u⟩ : F64)) cs ms).v
   else cbits (evalModes t.toF32 (xs.map fun u => (⟨Float.ofBits u⟩ : F32)) cs ms).v
 
-def step (st : RawTable) (ws : List String) : RawTable × String :=
+def step (ds : DState) (ws : List String) : DState × String :=
+  let st := ds.raw
   let nd := st.dims.length
   match ws with
   | "T" :: rest =>
     match parseTable rest with
-    | some t => (t, "table")
-    | none => (st, "bad-table")
+    | some t => (mkState t, "table")
+    | none => (ds, "bad-table")
   | "S" :: rest =>
     match bitsList rest with
     | some xs =>
-      if xs.length ≠ nd then (st, "bad-input") else
+      if xs.length ≠ nd then (ds, "bad-input") else
       match searchCenters (st.dims.map RawDim.toKeys) (xs.map keyOfBits) with
-      | .reject => (st, "reject")
-      | .nonterm => (st, "nonterm")
-      | .ok cs => (st, "ok " ++ joinNat cs)
-    | none => (st, "bad-input")
+      | .reject => (ds, "reject")
+      | .nonterm => (ds, "nonterm")
+      | .ok cs => (ds, "ok " ++ joinNat cs)
+    | none => (ds, "bad-input")
   | "V" :: prec :: mask :: rest =>
     match mask.toNat?, bitsList (rest.take nd), natList (rest.drop nd) with
     | some m, some xs, some cs =>
-      if xs.length ≠ nd || cs.length ≠ nd then (st, "bad-input") else
+      if xs.length ≠ nd || cs.length ≠ nd then (ds, "bad-input") else
       let ms := maskModes nd m
-      (st, s!"{evalBits st prec xs cs ms} {exactPart st xs cs ms}")
-    | _, _, _ => (st, "bad-input")
+      (ds, s!"{evalBits st prec xs cs ms} {exactPart ds xs cs ms}")
+    | _, _, _ => (ds, "bad-input")
   | "U" :: prec :: mask :: rest =>
     match mask.toNat?, bitsList (rest.take nd), natList (rest.drop nd) with
     | some m, some xs, some cs =>
-      if xs.length ≠ nd || cs.length ≠ nd then (st, "bad-input") else
-      (st, s!"{evalBits st prec xs cs (maskModes nd m)}")
-    | _, _, _ => (st, "bad-input")
+      if xs.length ≠ nd || cs.length ≠ nd then (ds, "bad-input") else
+      (ds, s!"{evalBits st prec xs cs (maskModes nd m)}")
+    | _, _, _ => (ds, "bad-input")
   | "B" :: prec :: mask :: rest =>
     match mask.toNat?, bitsList (rest.take nd), natList (rest.drop nd) with
     | some m, some xs, some cs =>
-      if xs.length ≠ nd || cs.length ≠ nd then (st, "bad-input") else
-      (st, s!"{evalBits st prec xs cs (maskModes nd m)}")
-    | _, _, _ => (st, "bad-input")
+      if xs.length ≠ nd || cs.length ≠ nd then (ds, "bad-input") else
+      (ds, s!"{evalBits st prec xs cs (maskModes nd m)}")
+    | _, _, _ => (ds, "bad-input")
   | "E" :: prec :: rest =>
     match natList (rest.take nd), bitsList ((rest.drop nd).take nd), natList (rest.drop (2*nd)) with
     | some ks, some xs, some cs =>
-      if ks.length ≠ nd || xs.length ≠ nd || cs.length ≠ nd then (st, "bad-input") else
-      (st, s!"{evalBits st prec xs cs (derivModes ks)}")
-    | _, _, _ => (st, "bad-input")
+      if ks.length ≠ nd || xs.length ≠ nd || cs.length ≠ nd then (ds, "bad-input") else
+      (ds, s!"{evalBits st prec xs cs (derivModes ks)}")
+    | _, _, _ => (ds, "bad-input")
   | "G" :: prec :: rest =>
     match bitsList (rest.take nd), natList (rest.drop nd) with
     | some xs, some cs =>
-      if xs.length ≠ nd || cs.length ≠ nd then (st, "bad-input") else
+      if xs.length ≠ nd || cs.length ≠ nd then (ds, "bad-input") else
       let r : Option (List UInt64) :=
         if prec == "d" then (ndsplineevalGradient maxDimDefault st.toF64 (xs.map fun u => (⟨Float.ofBits u⟩ : F64)) cs).map (·.map fun v => cbits v.v)
         else (ndsplineevalGradient maxDimDefault st.toF32 (xs.map fun u => (⟨Float.ofBits u⟩ : F32)) cs).map (·.map fun v => cbits v.v)
       match r with
-      | none => (st, "refused")
-      | some l => (st, " ".intercalate (l.map toString))
-    | _, _ => (st, "bad-input")
+      | none => (ds, "refused")
+      | some l => (ds, " ".intercalate (l.map toString))
+    | _, _ => (ds, "bad-input")
   | "D" :: prec :: rest =>
     match natList (rest.take nd), bitsList ((rest.drop nd).take nd), natList (rest.drop (2*nd)) with
     | some ks, some xs, some cs =>
-      if ks.length ≠ nd || xs.length ≠ nd || cs.length ≠ nd then (st, "bad-input") else
+      if ks.length ≠ nd || xs.length ≠ nd || cs.length ≠ nd then (ds, "bad-input") else
       let ms := derivModes ks
-      (st, s!"{evalBits st prec xs cs ms} {exactPart st xs cs ms}")
-    | _, _, _ => (st, "bad-input")
-  | _ => (st, "bad-input")
+      (ds, s!"{evalBits st prec xs cs ms} {exactPart ds xs cs ms}")
+    | _, _, _ => (ds, "bad-input")
+  | _ => (ds, "bad-input")
 
-partial def loop (h out : IO.FS.Stream) (st : RawTable) : IO Unit := do
+partial def loop (h out : IO.FS.Stream) (st : DState) : IO Unit := do
   let line ← h.getLine
   if line.isEmpty then return ()
   let (st', o) := step st (words line)
